@@ -912,6 +912,38 @@ def check_channels(label, s, rng, layout="dort", extra=()):
     return None
 
 
+def check_channel_sequence(label, s, rng):
+    """a channel selection combined with another selector, then the same channel alone: the second call, the exports and the sensor's own
+    channel definitions must be what they were before (selection is a read-only operation)"""
+    import copy
+    from smrt.core.sensor import SensorList
+    if isinstance(s, SensorList):
+        return None
+    extra = (("snowpack", [0, 1, 2]),)
+    res = stub_result(s, rng, extra)
+    kind = "tb" if s.mode == "P" else "sigma"
+    cm0 = copy.deepcopy(dict(s.channel_map))
+    for ch in list(s.channel_map)[:3]:
+        try:
+            first = call_kind(res, kind, channel=ch)
+            n0 = len(res.to_dataframe())
+            call_kind(res, kind, channel=ch, snowpack=1)
+            again = call_kind(res, kind, channel=ch)
+            n1 = len(res.to_dataframe())
+        except Exception as e:  # noqa
+            return ("channel-sequence", f"{label}: channel {ch!r} then channel + snowpack=1 then channel again raises {type(e).__name__}: {str(e)[:80]}",
+                    "three selections")
+        if not same_map(first, again, 1e-12):
+            return ("channel-sequence", f"{label}: {kind}(channel={ch!r}) = {out_res(first)[:100]}, but after {kind}(channel={ch!r}, snowpack=1) the same "
+                    f"call gives {out_res(again)[:100]}", out_res(first)[:200])
+        if n0 != n1:
+            return ("channel-sequence", f"{label}: to_dataframe() has {n0} rows before and {n1} rows after {kind}(channel={ch!r}, snowpack=1)", n0)
+        if dict(s.channel_map) != cm0:
+            return ("channel-sequence", f"{label}: the sensor's channel_map changed after {kind}(channel={ch!r}, snowpack=1): {dict(s.channel_map).get(ch)} "
+                    f"(was {cm0.get(ch)})", str(cm0.get(ch)))
+    return None
+
+
 def check_saveload(res):
     from smrt.core.result import open_result
     p = tmpdir() / "oracle.nc"
@@ -1063,10 +1095,20 @@ def _oracle(ctx, hints, effort):
         s = sl.quikscat()
         pieces = [stub_result(s, rng) for _ in range(3)]
         record(lambda: check_concat(pieces, [], "site", ["a", "b", "c"]), {"kind": "none"})
+    # selections are read-only: a channel with another selector, then the channel alone
+    for j, s in enumerate([sl.amsre(["19", "37"]), sl.sentinel1([20, 30, 40]) if hasattr(sl, "sentinel1") else sl.quikscat(), sl.smos(), sl.quikscat()]
+                          [: (2 if effort == "routine" else 4)]):
+        evals += 1
+        record(lambda: check_channel_sequence(getattr(s, "name", "sensor"), s, rng), {"kind": "channel_sequence", "index": j})
     # save / open
     for s in [sl.amsre("37V"), sl.quikscat(), sl.smos()][: (1 if effort == "routine" else 3)]:
         evals += 1
         record(lambda: check_saveload(stub_result(s, rng)), {"kind": "saveload", "sensor": s.name})
+    # ... with string-labelled extra dimensions (named snowpacks, a string snowpack_dimension)
+    for labels in (["shallow", "deep", "depth_hoar"], ["dry", "dry_coarse"]):
+        evals += 1
+        s = sl.amsre("37V")
+        record(lambda: check_saveload(stub_result(s, rng, (("snowpack", labels),))), {"kind": "saveload", "sensor": s.name, "labels": labels})
     # custom frequency names
     for fname in ("amsre", "amsr2", "cimr"):
         for fr in ([[10e9]] if effort == "routine" else CUSTOM_FREQS):
@@ -1139,7 +1181,11 @@ def _replay(inp, rp=None):
         pieces = [stub_result(x, rng) for x in sens]
         r = check_concat(pieces, [(c, v, p) for c, v, p in zip(inp["channels"], [0, 1], pieces)], "time", [0, 1])
     elif k == "saveload":
-        r = check_saveload(stub_result(sl.amsre("37V"), rng))
+        extra = (("snowpack", inp["labels"]),) if inp.get("labels") else ()
+        r = check_saveload(stub_result(sl.amsre("37V"), rng, extra))
+    elif k == "channel_sequence":
+        s = [sl.amsre(["19", "37"]), sl.sentinel1([20, 30, 40]) if hasattr(sl, "sentinel1") else sl.quikscat(), sl.smos(), sl.quikscat()][inp["index"]]
+        r = check_channel_sequence(getattr(s, "name", "sensor"), s, rng)
     elif k == "custom":
         r = check_custom(inp["ctor"], inp["frequency"])
     elif k == "plugin":
